@@ -194,6 +194,11 @@ def check_c16(sc, an):
     if not fails:
         return V
     failed_acts = [a for a in an.acts if a.ok is False]
+    # without a loop emit cannot wait for (or report the failure of) an awaitable
+    failed_acts = [a for a in failed_acts
+                   if an.spec[a.node]['op'] != 'sink' or an.spec[a.node].get('kind', 'sync') == 'sync'
+                   or a.root is None or an.emits.get(tuple(a.root)) is None
+                   or an.emits_wait(an.emits[tuple(a.root)].entry)]
     # 1. every injected failure that fired reaches the caller of the emit whose extent it is in
     for a in failed_acts:
         root = tuple(a.root) if a.root is not None else None
